@@ -21,7 +21,7 @@ pub fn def() -> PropDef {
     PropDef {
         id: "C03",
         level: "exploration",
-        rule: "for each validly signed base entry: every single-byte alteration (each byte position of its wire encoding x {xor 0x01, xor 0x80, :=0x00, :=0xff}) that the crate still decodes, the two signatures swapped, signatures taken from another entry (other key / other author / other namespace), a validly signed entry of a foreign namespace, an entry claiming our namespace signed with a foreign namespace secret and entries naming a foreign / an unknown namespace signed with our namespace secret, author/namespace ids that are not curve points, timestamps now+10min-1/+0/+1 and the four emptiness combinations; each candidate is presented as a single remote insert to a replica that already holds the untampered original (signatures it has seen before), as a single remote insert and inside a hand-assembled reconciliation message at every position of every part (1..3 parts, 1..2 entries per part) among valid filler entries; the verdict is compared with an independent acceptance predicate; one message layout (the candidate between two valid entries) is also handed to the store actor (SyncHandle::sync_process_message); family G: a real node (Docs engine, gossip receive loop, store actor) syncs the document and an endpoint of the harness, joined to the document's gossip topic as its neighbour, broadcasts the candidates (byte alterations thinned to every 11th, thorough 5th, position) as Put operations, each followed by a validly signed probe: when the probe has entered, the replica holds the candidate exactly when the predicate allows it, reception has not stopped, and a subscriber of the docs API was told about exactly the entries that entered; non-trivial = distinct candidates that the crate decodes and that differ from the base entry",
+        rule: "for each validly signed base entry: every single-byte alteration (each byte position of its wire encoding x {xor 0x01, xor 0x80, :=0x00, :=0xff}) that the crate still decodes, the two signatures swapped, signatures taken from another entry (other key / other author / other namespace), a validly signed entry of a foreign namespace, an entry claiming our namespace signed with a foreign namespace secret and entries naming a foreign / an unknown namespace signed with our namespace secret, author/namespace ids that are not curve points, timestamps now+10min-1/+0/+1 and the four emptiness combinations; each candidate is presented as a single remote insert to a replica that already holds the untampered original (signatures it has seen before), as a single remote insert and inside a hand-assembled reconciliation message at every position of every part (1..3 parts, 1..2 entries per part) among valid filler entries; the verdict is compared with an independent acceptance predicate; one message layout (the candidate between two valid entries) is also handed to the store actor (SyncHandle::sync_process_message); one family runs on the machine's own clock (no clock hook): entries stamped five seconds inside / outside the ten-minute bound on both ingress paths, and a local write must carry the machine's time; family G: a real node (Docs engine, gossip receive loop, store actor) syncs the document and an endpoint of the harness, joined to the document's gossip topic as its neighbour, broadcasts the candidates (byte alterations thinned to every 11th, thorough 5th, position) as Put operations, each followed by a validly signed probe: when the probe has entered, the replica holds the candidate exactly when the predicate allows it, reception has not stopped, and a subscriber of the docs API was told about exactly the entries that entered; non-trivial = distinct candidates that the crate decodes and that differ from the base entry",
         assumptions: &[
             "ed25519 itself (unforgeability, strictness) is trusted: the predicate asks the same library routine with an independently computed message and keys",
             "candidates are single-fault: one altered byte or one substituted field per entry",
@@ -893,8 +893,68 @@ fn run_gossip_family(ctx: &Ctx, report: &mut Report) {
     }
 }
 
+/// The future bound against the machine's own clock (every other family pins the clock through
+/// the hook): entries stamped now + 10 min - 5 s are accepted, now + 10 min + 5 s are not, on both
+/// ingress paths; and a local write is stamped with the machine's time.
+fn real_clock_bound() -> Vec<(&'static str, String)> {
+    let mut bad = vec![];
+    iroh_docs::verif::set_clock_micros(None);
+    let now = || std::time::SystemTime::now().duration_since(std::time::UNIX_EPOCH).unwrap().as_micros() as u64;
+    let (h, l) = Val::X.hash_len();
+    for (label, offset, want_ok) in [("ten minutes minus five seconds ahead", MAX_TIMESTAMP_FUTURE_SHIFT as i64 - 5_000_000, true), ("ten minutes plus five seconds ahead", MAX_TIMESTAMP_FUTURE_SHIFT as i64 + 5_000_000, false), ("an hour ago", -3_600_000_000i64, true)] {
+        let ts = (now() as i64 + offset) as u64;
+        let e = SignedEntry::from_parts(&ns_secret(0), &author(0), format!("rc{offset}").as_bytes(), Record::new(h, l, ts));
+        // single remote insert
+        let mut sut = Sut::memory_with(&[0]);
+        let got = sut.remote(ns_id(0), e.clone());
+        let ok = matches!(got, crate::sut::Outcome::Inserted(_));
+        if ok != want_ok {
+            bad.push(("future_bound_against_the_real_clock", format!("single remote insert of an entry stamped {label} of the machine's clock: {got:?}")));
+        }
+        // inside a message
+        let x = iroh_docs::sync::RecordIdentifier::default().as_bytes().to_vec();
+        let msg = encode_message(&[RawPart::Item { x: x.clone(), y: x, values: vec![(postcard::to_stdvec(&e).unwrap(), 2u8)], have_local: true }]);
+        if let Some(Ok((full, _, _))) = process(&msg) {
+            let held = full.snap.dump.contains(&e);
+            if held != want_ok {
+                bad.push(("future_bound_against_the_real_clock", format!("reconciliation message carrying an entry stamped {label} of the machine's clock: stored = {held}")));
+            }
+        }
+    }
+    // a local write carries the machine's time
+    {
+        let mut sut = Sut::memory_with(&[0]);
+        sut.store.import_author(author(0)).expect("author");
+        let before = now();
+        let _ = sut.local_insert(ns_id(0), &author(0), b"local", Val::X);
+        let after = now();
+        match sut.dump(ns_id(0)).first().map(|e| e.timestamp()) {
+            Some(t) if t >= before && t <= after => {}
+            other => bad.push(("local_write_is_stamped_with_the_clock", format!("local write between {before} and {after} (microseconds of the machine's clock) is stamped {other:?}"))),
+        }
+    }
+    set_clock(NOW);
+    bad
+}
+
 fn run(ctx: &Ctx, report: &mut Report) {
     crate::util::silence_panics();
+    if ctx.shard == 9 % ctx.of {
+        report.evaluations += 7;
+        report.count("real_clock_cases", 7);
+        let case = json!({"real_clock": true});
+        match catch(real_clock_bound) {
+            Err(p) => {
+                set_clock(NOW);
+                report.violation("no_panic", json!({"real_clock": true}), case, format!("panic: {p}"), 0)
+            }
+            Ok(bad) => {
+                for (o, d) in bad {
+                    report.violation(o, json!({"real_clock": true}), case.clone(), d, 0);
+                }
+            }
+        }
+    }
     run_gossip_family(ctx, report);
     let lays = layouts(if ctx.quick() { 2 } else { 3 });
     report.fact("layouts", json!(lays.len()));
@@ -916,6 +976,18 @@ fn run(ctx: &Ctx, report: &mut Report) {
 
 fn replay(case: &Value) -> anyhow::Result<(bool, String)> {
     set_clock(NOW);
+    if case.get("real_clock").is_some() {
+        return match catch(real_clock_bound) {
+            Err(p) => Ok((true, format!("panic: {p}"))),
+            Ok(bad) => {
+                let names: std::collections::BTreeSet<&str> = bad.iter().map(|(o, _)| *o).collect();
+                for (o, d) in &bad {
+                    eprintln!("detail: {o}: {d}");
+                }
+                Ok((!bad.is_empty(), format!("the machine's own clock\n{}", names.iter().map(|o| format!("FAILED {o}\n")).collect::<String>())))
+            }
+        };
+    }
     if let Some(g) = case.get("gossip") {
         let ctx = Ctx { tier: if g["quick"].as_bool().unwrap_or(true) { Tier::Quick } else { Tier::Thorough }, shard: g["shard"].as_u64().unwrap_or(0), of: g["of"].as_u64().unwrap_or(16), seed: 0 };
         let share = gossip_share(&ctx);
